@@ -70,6 +70,7 @@ def cases(tier, seed):
                 q = G._copy(p)
                 q['stages'][i]['exclude'] = True
                 progs.append(q)
+    progs += G.gen_special()
     out = []
     for p in progs:
         out.append({'prog': p, 'tier': tier})
